@@ -37,6 +37,7 @@ class JobWorld(World):
         self.cheater_children = True
         self.status_values = status_values
         self.last_pipe = None
+        self.select_budget = 0
         # ghost ledger
         self.reaped = 0
         self.eaten = 0
